@@ -10,6 +10,9 @@ MAP=""
 for c in $(git rev-list --reverse "$BASE..$BR"); do
   subj=$(git log -1 --format=%s "$c")
   case "$subj" in fix:*) ;; *) echo "skip non-fix commit $c $subj"; continue;; esac
+  if git show "$c" -- pipefunc | git apply --reverse --check 2>/dev/null; then
+    echo "already applied $(git log -1 --format=%h "$c") $subj"; continue
+  fi
   if git show "$c" -- pipefunc | git apply --index --3way 2>/tmp/integ_err; then
     git commit -q -m "$(git log -1 --format=%B "$c")"
     n=$(git log -1 --format=%h)
